@@ -90,6 +90,12 @@ def evaluate(ids):
         staked = [fn for fn in res.get("demoted", []) if meta["breaks_property"] in res.get("fn_props", {}).get(fn, [])]
         if staked and not meta["undecided"] and meta["breaks_property"] not in fired:
             meta["undecided"] = "auto-demoted (left the verifier's subset): " + ", ".join(staked)
+        adv = [x for x in pipeline.advisories(res, VERIF)]
+        meta["advisories"] = [{"kind": x["kind"], "props": sorted(x["props"]), "reason": x["reason"]} for x in adv]
+        if not meta["undecided"] and meta["breaks_property"] not in fired:
+            for x in adv:
+                if meta["breaks_property"] in x["props"]:
+                    meta["undecided"] = x["reason"]
         meta["target_property_detected"] = meta["breaks_property"] in fired
         meta["evaluated_at"] = time.strftime("%Y-%m-%dT%H:%M:%SZ", time.gmtime())
         json.dump(meta, open(os.path.join(d, "meta.json"), "w"), indent=1)
